@@ -71,7 +71,10 @@ def gen_case(rng, i):
             'rm': {'P': rng.randint(1, 3)},
             'qm': {'P': rng.randint(1, 3), 'n_per_utility': rng.randint(2, 6),
                    'cutoff': rng.choice([1000000, 1000000, 2, 0])},
-            'map': {'B': rng.choice([1, 2, 5, 10, 12]), 'f': list(FACTORS[i % len(FACTORS)]), 'chunk': rng.randint(1, 4),
+            'naming': 'shared' if i % 3 == 1 else 'prefixed',
+            'reduce': (['none', 'none', 'drop', 'flatten'][i % 4] if i % 5 else 'none'),
+            'map': {'B': 256 if i % 12 == 7 else rng.choice([1, 2, 5, 10, 12]), 'f': list(FACTORS[i % len(FACTORS)]),
+                    'chunk': rng.randint(1, 4),
                     'P': rng.randint(1, 3), 'seed': rng.randrange(10 ** 5), 'K': rng.randint(0, 3),
                     'qenc': rng.choice(['dense', 'csr', 'csc'])}}
 
@@ -91,10 +94,17 @@ def build_reference(case, d):
                 shape.append((c, s))
     shape = shape[:9]
     L = len(shape)
-    cn = _names(rng, 'C', case['n_class'])
     subs = sorted(set(shape))
-    sn = dict(zip(subs, _names(rng, 's', len(subs))))
-    ln = _names(rng, 'k', L)
+    if case.get('naming') == 'shared':
+        # the same labels are used on every level (unique within a level only): a class "b", a subclass
+        # "b" under another class, a cluster "b" somewhere else
+        cn = _names(rng, '', case['n_class'])
+        sn = dict(zip(subs, _names(rng, '', len(subs))))
+        ln = _names(rng, '', L)
+    else:
+        cn = _names(rng, 'C', case['n_class'])
+        sn = dict(zip(subs, _names(rng, 's', len(subs))))
+        ln = _names(rng, 'k', L)
     NG = 2 * L + 3
     gn = _names(rng, rng.choice(['g', 'G', 'x']), min(NG, 16))
     gn += [f'h{j}' for j in range(NG - len(gn))]
@@ -215,6 +225,14 @@ def _case(args):
         conf = build.mapping_config(d, d / 'q.h5ad', d / 'stats.h5', d / 'm.json',
                                     {'B': m['B'], 'fnum': m['f'][0], 'fden': m['f'][1], 'chunk': m['chunk'],
                                      'seed': m['seed'], 'K': m['K'], 'P': m['P'], 'norm': 'log2CPM'})
+        RH = list(H)                      # the levels the run votes on
+        if case.get('reduce') == 'flatten':
+            conf['flatten'] = True
+            RH = [H[-1]]
+        elif case.get('reduce') == 'drop' and len(H) > 1:
+            dl = H[case['seed'] % (len(H) - 1)]
+            conf['drop_level'] = dl
+            RH = [x for x in H if x != dl]
         r = build.run_mapping(conf, trace_dir=str(d / 'tr'))
         root_key_empty = len(lookup.get('None', [])) == 0
         if not r['ok']:
@@ -288,7 +306,10 @@ def _case(args):
                     info['skipped_filler'] += 1
                     continue
                 plev = None if v['parent'] is None else v['parent'][0]
-                clev = H[0] if plev is None else H[H.index(plev) + 1]
+                if plev is not None and plev not in RH:
+                    issues.append((1810, f'a node of the removed level {plev} was visited'))
+                    continue
+                clev = RH[0] if plev is None else RH[RH.index(plev) + 1]
                 pos = [gpos[g] for g in v['genes']]
                 q = _norm([int(ref['sums'][lf][p]) for p in pos])
                 M = [[lidx[b], _norm([int(ref['sums'][b][p]) for p in pos])] for b in v['leaves'] if b in lidx]
